@@ -162,7 +162,7 @@ def make_shape(s):
     return ShapeGroup([make_shape(m) for m in s["m"]])
 
 
-def make_shape_via(s, seed, trace=None):
+def make_shape_via(s, seed, trace=None, defer=False):
     """the shape of spec s reached through its public setters: an object built with other values answers queries
     (vertices, point containment, exported geometry), then length / width / center / orientation (radius / center;
     vertices) are assigned the values of s, with further queries in between.  What the object denotes is given by its
@@ -172,7 +172,15 @@ def make_shape_via(s, seed, trace=None):
     import random
     r = random.Random(seed)
     if s["k"] == "group":
-        return ShapeGroup([make_shape_via(m, r.randrange(1 << 30), trace) for m in s["m"]])
+        # the members get their values AFTER the group was built and queried (setters of the member objects)
+        parts = [make_shape_via(m, r.randrange(1 << 30), trace, defer=True) for m in s["m"]]
+        g = ShapeGroup([sh for sh, _ in parts])
+        if r.random() < 0.8:
+            m0 = prims(s)[0]
+            g.contains_point(np.array(m0["c"] if "c" in m0 else m0["v"][0], dtype=float))
+        for _, finish in parts:
+            finish()
+        return g
     dx, dy = r.choice([3.0, -2.5, 0.75]), r.choice([-4.0, 1.5, 6.25])
     tok = [0]
 
@@ -212,14 +220,18 @@ def make_shape_via(s, seed, trace=None):
         sets = [("length", s["l"], "RSetL"), ("width", s["w"], "RSetW"), ("center", np.array(s["c"], dtype=float), "RSetC"),
                 ("orientation", s["o"], "RSetO")]
         r.shuffle(sets)
-        for a, v, ctor in sets:
-            setattr(sh, a, v)
-            cur[a] = v
-            op = f"({ctor} {new_tok()})"
-            obs(True)
-            if r.random() < 0.4:
-                query(r.choice(["v", "g"]))
-        rec = {"k": "rect", "init": init, "steps": steps}
+
+        def finish():
+            nonlocal op
+            for a, v, ctor in sets:
+                setattr(sh, a, v)
+                cur[a] = v
+                op = f"({ctor} {new_tok()})"
+                obs(True)
+                if r.random() < 0.4:
+                    query(r.choice(["v", "g"]))
+            if trace is not None:
+                trace.append({"k": "rect", "init": init, "steps": steps})
     elif s["k"] == "circ":
         cur = {"radius": s["r"] * r.choice([1.0, 2.0, 0.5]), "center": np.array([s["c"][0] + dx, s["c"][1] + dy], dtype=float)}
         sh = Circle(cur["radius"], cur["center"])
@@ -240,14 +252,18 @@ def make_shape_via(s, seed, trace=None):
         sh.contains_point(np.array(s["c"], dtype=float))
         sets = [("radius", s["r"], "CSetR"), ("center", np.array(s["c"], dtype=float), "CSetC")]
         r.shuffle(sets)
-        for a, v, ctor in sets:
-            setattr(sh, a, v)
-            cur[a] = v
-            op = f"({ctor} {new_tok()})"
-            cobs(True)
-            if r.random() < 0.5:
-                cquery()
-        rec = {"k": "circ", "init": init, "steps": steps}
+
+        def finish():
+            nonlocal op
+            for a, v, ctor in sets:
+                setattr(sh, a, v)
+                cur[a] = v
+                op = f"({ctor} {new_tok()})"
+                cobs(True)
+                if r.random() < 0.5:
+                    cquery()
+            if trace is not None:
+                trace.append({"k": "circ", "init": init, "steps": steps})
     else:
         v0 = np.array([[x + dx, y + dy] for x, y in s["v"]], dtype=float)
         sh = Polygon(v0)
@@ -268,15 +284,20 @@ def make_shape_via(s, seed, trace=None):
         op = None
         pquery(v0)
         mids = [np.array([[x + 0.5 * dx, y] for x, y in s["v"]], dtype=float)] if r.random() < 0.4 else []
-        for vs in mids + [np.array(s["v"], dtype=float)]:
-            sh.vertices = vs
-            op = f"(PSetV [{new_tok()}])"
-            pobs(True)
-            if r.random() < 0.6 or vs is not mids[0] if mids else True:
-                pquery(vs)
-        rec = {"k": "poly", "init": init, "steps": steps}
-    if trace is not None:
-        trace.append(rec)
+
+        def finish():
+            nonlocal op
+            for vs in mids + [np.array(s["v"], dtype=float)]:
+                sh.vertices = vs
+                op = f"(PSetV [{new_tok()}])"
+                pobs(True)
+                if r.random() < 0.6 or vs is not mids[0] if mids else True:
+                    pquery(vs)
+            if trace is not None:
+                trace.append({"k": "poly", "init": init, "steps": steps})
+    if defer:
+        return sh, finish
+    finish()
     return sh
 
 
